@@ -14,7 +14,7 @@ Producer: harness/viz_common.py.
   collect | collectd COLOR SIZE MARKER ZORDER
   draw | altair | heap
   layer v…                           property layer values, x-major (W*H ints)
-  drawlayer
+  drawlayer cmap|color|cmapauto|colorauto
 
  params scenarios
   sig NAME:KIND:d|n …                KIND ∈ po pk vp ko vk
@@ -240,11 +240,12 @@ def stepLine (st : St) (ws : List String) : St × String :=
       | some vals =>
         let L : Layer := { w := sp.w, h := sp.h, vals }
         if L.wellFormed then ({ st with layer := some L }, "ok") else (st, "bad-op")
-  | ["drawlayer"] =>
+  | ["drawlayer", mode] =>
+    -- the mode (colormap / single colour, explicit / automatic range) only changes colours, not orientation
     withSpace st fun sp =>
       match st.layer with
       | none => (st, "bad-op")
-      | some L => (st, fmtLayer sp.fam L)
+      | some L => if ["cmap", "color", "cmapauto", "colorauto"].contains mode then (st, fmtLayer sp.fam L) else (st, "bad-op")
   | "sig" :: ps =>
     if !st.params then (st, "bad-op") else
     match ps.mapM parseParam with
